@@ -73,13 +73,14 @@ fn all_atoms(body: &[SNode]) -> bool {
 impl Property for C05 {
     fn id(&self) -> &'static str { "C05" }
     fn rule(&self) -> &'static str {
-        "generated register-language configuration (scratch pools of 0..4 registers per type, optional anti-scratch instruction) + typed body mentioning registers in every position (assignment targets/sources, aliases and raw spellings, both sigils, difficulty switches, call arguments, conditions, times clobbers, --x); checked: every compiler-chosen register is general-use, unmentioned, not shared by locals with overlapping lexical scope, and emitted register operands are mentioned or bound; non-trivial = >= 2 locals/temporaries bound and >= 1 scratch register of the same type mentioned in the source"
+        "(a) generated register-language configuration (scratch pools of 0..4 registers per type, optional anti-scratch instruction) + typed body mentioning registers in every position (assignment targets/sources, aliases and raw spellings, both sigils, difficulty switches, call arguments, conditions, times clobbers, --x); checked: every compiler-chosen register is general-use, unmentioned, not shared by locals with overlapping lexical scope, and emitted register operands are mentioned or bound; (b) EoSD ECL subs with named / unnamed parameters: no local or temporary in a parameter register; (c) the real register files of ANM TH07/08/12/14/17 and ECL TH06/07/08/StB through whole-file compiles: named locals in nested scopes, expressions needing temporaries, general-purpose registers mentioned as assignment targets / sources / conditions / inside difficulty switches, sometimes more live locals than registers or the instruction that forbids scratch use: every bound register is a general-purpose register of its type, unmentioned, not shared by locals whose scopes overlap, and exhaustion / anti-scratch must be diagnosed; non-trivial = >= 2 locals/temporaries bound and >= 1 scratch register of the same type mentioned in the source"
     }
     fn tape_len(&self, tier: Tier) -> usize { tier.pick(400, 700) }
     fn cases(&self, tier: Tier) -> u32 { tier.pick(200000, 4000000) }
-    fn required_labels(&self, _tier: Tier) -> Vec<&'static str> { vec!["bound>=2", "scratch_mentioned", "anti_scratch_present", "anti_scratch_rejected", "too_complex_rejected", "named_overlap", "eosd-params", "eosd-params:unnamed", "eosd-params:exhausted"] }
+    fn required_labels(&self, _tier: Tier) -> Vec<&'static str> { vec!["bound>=2", "scratch_mentioned", "anti_scratch_present", "anti_scratch_rejected", "too_complex_rejected", "named_overlap", "eosd-params", "eosd-params:unnamed", "eosd-params:exhausted", "real-regs", "real-regs:anm", "real-regs:ecl", "real-regs:bound>=2", "real-regs:mentioned", "real-regs:nested-scopes", "real-regs:exhausted", "real-regs:anti-scratch"] }
 
     fn generate(&self, tape: &mut Tape, _tier: Tier, known: &Known) -> Value {
+        if tape.chance(1, 6) { return real_regs_case(tape); }
         if tape.chance(1, 8) {
             // EoSD ECL subs with parameters: the parameter registers (I0 = REG[-10001], F0 = REG[-10005]) are general-purpose
             // registers of that language, so they must be kept out of the scratch pool while the sub has such a parameter,
@@ -117,6 +118,7 @@ impl Property for C05 {
 
     fn check(&self, case: &Value, ctx: &mut CheckCtx) -> Outcome {
         if case["mode"] == "eosd-params" { return check_eosd_params(case, ctx); }
+        if case["mode"] == "real-regs" { return check_real_regs(case, ctx); }
         let spec = LangSpec::from_json(&case["spec"]);
         let text = case["text"].as_str().unwrap();
         let getv = |k: &str| -> Vec<i32> { case[k].as_array().map(|a| a.iter().map(|x| x.as_i64().unwrap() as i32).collect()).unwrap_or_default() };
@@ -247,6 +249,135 @@ fn check_eosd_params(case: &Value, ctx: &mut CheckCtx) -> Outcome {
                     if v == *reg || f == *reg as f32 { return Outcome::Fail(Failure::new("c05:eosd-params:parameter-register-used-as-scratch", format!("the emitted instruction (opcode {}, args {:02x?}) uses REG[{}], the register of a parameter that the body never mentions\n{}", i.opcode, i.args_blob, reg, text))); }
                 }
             }
+        }
+    }
+    Outcome::Pass
+}
+
+
+// ---- the real register files (ANM TH07+, ECL TH06 / TH07 / TH08 / StB) --------------------------------------------
+
+/// The general-purpose registers of each real language, as listed in the games' mapfiles (I0-I3, IC0-IC3, F0-F3 ...).
+fn real_general(fmt: &str, game: &str) -> (Vec<i32>, Vec<i32>) {
+    match (fmt, game) {
+        ("anm", _) => (vec![10000, 10001, 10002, 10003, 10008, 10009], vec![10004, 10005, 10006, 10007]),
+        ("ecl", "th06") => (vec![-10001, -10002, -10003, -10004, -10009, -10010, -10011, -10012], vec![-10005, -10006, -10007, -10008]),
+        ("ecl", "th07") => (vec![10000, 10001, 10002, 10003, 10012, 10013, 10014, 10015], vec![10004, 10005, 10006, 10007, 10008, 10009, 10010, 10011, 10072, 10074]),
+        ("ecl", "th08") => (vec![10000, 10001, 10002, 10003, 10004, 10005, 10006, 10007, 10036, 10037, 10038, 10039], vec![10016, 10017, 10018, 10019, 10020, 10021, 10022, 10023, 10094, 10095]),
+        _ /* ecl th095 */ => (vec![10000, 10001, 10002, 10003, 10004, 10005, 10006, 10007, 10020, 10021, 10022, 10023], vec![10008, 10009, 10010, 10011, 10012, 10013, 10014, 10015, 10077, 10078, 10079, 10080]),
+    }
+}
+
+/// A script / sub over a real register file: named locals in nested scopes (each declared at the start of its block, so
+/// lexical overlap = one scope path is a prefix of the other), expressions that need temporaries, registers of the
+/// general-purpose set mentioned in several syntactic positions, sometimes more locals than registers, sometimes the
+/// instruction that forbids scratch use.
+fn real_regs_case(tape: &mut Tape) -> Value {
+    let (fmt, game) = *tape.pick(&[("anm", "th07"), ("anm", "th08"), ("anm", "th12"), ("anm", "th14"), ("anm", "th17"), ("ecl", "th06"), ("ecl", "th07"), ("ecl", "th08"), ("ecl", "th095")]);
+    let (gi, gf) = real_general(fmt, game);
+    let mut locals: Vec<Value> = vec![];   // {name, ty, path}
+    let mut mentioned: Vec<i32> = vec![];
+    let mut k = 0usize;
+    let many = tape.chance(1, 8);
+    fn block(tape: &mut Tape, depth: usize, path: &mut Vec<usize>, ind: usize, k: &mut usize, locals: &mut Vec<Value>, mentioned: &mut Vec<i32>, gi: &[i32], gf: &[i32], fmt: &str, many: bool) -> String {
+        let pad = "    ".repeat(ind);
+        let mut s = String::new();
+        let (ni, nf) = if many { (tape.below(gi.len() + 3), tape.below(gf.len() + 3)) } else { (tape.below(3), tape.below(3)) };
+        let mut mine_i = vec![]; let mut mine_f = vec![];
+        for _ in 0..ni { *k += 1; let n = format!("x{}", k); s.push_str(&format!("{}int {} = {};\n", pad, n, 1000 + *k)); locals.push(json!({"name": n, "ty": "int", "path": path.clone()})); mine_i.push(n); }
+        for _ in 0..nf { *k += 1; let n = format!("y{}", k); s.push_str(&format!("{}float {} = {}.5;\n", pad, n, 1000 + *k)); locals.push(json!({"name": n, "ty": "float", "path": path.clone()})); mine_f.push(n); }
+        let nst = tape.below(4);
+        for _ in 0..nst {
+            match tape.below(8) {
+                0 if !mine_i.is_empty() => { let a = tape.pick(&mine_i).clone(); let b = tape.pick(&mine_i).clone(); s.push_str(&format!("{}{} = ({} * 3 + 2) * ({} + 7);\n", pad, a, a, b)); }
+                1 if !mine_f.is_empty() => { let a = tape.pick(&mine_f).clone(); let b = tape.pick(&mine_f).clone(); s.push_str(&format!("{}{} = ({} * 3.0 + 2.0) * ({} + 7.0);\n", pad, a, a, b)); }
+                2 => { let r = *tape.pick(gi); mentioned.push(r); s.push_str(&format!("{}$REG[{}] = {};\n", pad, r, tape.below(9))); }
+                3 => { let r = *tape.pick(gf); mentioned.push(r); s.push_str(&format!("{}%REG[{}] = {}.0;\n", pad, r, tape.below(9))); }
+                4 if !mine_i.is_empty() => { let r = *tape.pick(gi); mentioned.push(r); let a = tape.pick(&mine_i).clone(); s.push_str(&format!("{}{} = $REG[{}] + ({} * 2);\n", pad, a, r, a)); }
+                5 if !mine_i.is_empty() => { let r = *tape.pick(gi); mentioned.push(r); let a = tape.pick(&mine_i).clone(); s.push_str(&format!("{}if ($REG[{}] == 3) {{\n{}    {} = {} + 1;\n{}}}\n", pad, r, pad, a, a, pad)); }
+                6 if fmt == "ecl" && !mine_i.is_empty() => { let r = *tape.pick(gi); mentioned.push(r); let a = tape.pick(&mine_i).clone(); s.push_str(&format!("{}{} = {} + ($REG[{}] : 5 : 6 : 7);\n", pad, a, a, r)); }
+                7 if !mine_f.is_empty() => { let r = *tape.pick(gf); mentioned.push(r); let a = tape.pick(&mine_f).clone(); s.push_str(&format!("{}{} = {} * (%REG[{}] - 1.0);\n", pad, a, a, r)); }
+                _ => {}
+            }
+        }
+        if depth > 0 {
+            let nb = tape.below(3);
+            for bi in 0..nb {
+                path.push(bi);
+                let inner = block(tape, depth - 1, path, ind + 1, k, locals, mentioned, gi, gf, fmt, false);
+                path.pop();
+                match tape.below(3) { 0 => s.push_str(&format!("{}{{\n{}{}}}\n", pad, inner, pad)), 1 => s.push_str(&format!("{}loop {{\n{}{}    break;\n{}}}\n", pad, inner, pad, pad)), _ => s.push_str(&format!("{}if (1 == 1) {{\n{}{}}}\n", pad, inner, pad)) }
+            }
+        }
+        s
+    }
+    let mut path = vec![];
+    let mut body = block(tape, 2, &mut path, 1, &mut k, &mut locals, &mut mentioned, &gi, &gf, fmt, many);
+    // the instruction that forbids scratch registers (ANM TH14+: copyParentVars in this script; ECL: the call-stack instruction, file-wide)
+    let anti = tape.chance(1, 10);
+    let mut anti_text = String::new();
+    if anti {
+        anti_text = match (fmt, game) { ("anm", "th14") | ("anm", "th17") => "    ins_509();\n".into(), ("ecl", "th06") | ("ecl", "th07") => "    ins_130(@blob=\"\");\n".into(), ("ecl", "th08") => "    ins_151(@blob=\"\");\n".into(), ("ecl", "th095") => "    ins_126(@blob=\"\");\n".into(), _ => String::new() };
+        body.push_str(&anti_text);
+    }
+    let text = if fmt == "anm" {
+        format!("entry {{\n    path: \"a.png\",\n    has_data: false,\n    rt_width: 16,\n    rt_height: 16,\n    rt_format: 1,\n    sprites: {{}},\n}}\n\nscript script0 {{\n{}}}\n", body)
+    } else {
+        format!("script timeline0 {{\n}}\n\nvoid Sub0() {{\n{}}}\n", body)
+    };
+    mentioned.sort(); mentioned.dedup();
+    json!({"mode": "real-regs", "fmt": fmt, "game": game, "text": text, "locals": locals, "mentioned": mentioned, "anti": !anti_text.is_empty()})
+}
+
+fn check_real_regs(case: &Value, ctx: &mut CheckCtx) -> Outcome {
+    use crate::files::{self, Fmt};
+    let text = case["text"].as_str().unwrap();
+    let (fmt_s, game) = (case["fmt"].as_str().unwrap(), case["game"].as_str().unwrap());
+    let fmt = Fmt::parse(fmt_s);
+    let g = files::game_from_str(game);
+    let (gi, gf) = real_general(fmt_s, game);
+    ctx.label("real-regs"); ctx.label(format!("real-regs:{}", fmt_s));
+    let locals = case["locals"].as_array().cloned().unwrap_or_default();
+    let mentioned: BTreeSet<i32> = case["mentioned"].as_array().map(|a| a.iter().map(|x| x.as_i64().unwrap() as i32).collect()).unwrap_or_default();
+    if !mentioned.is_empty() { ctx.label("real-regs:mentioned"); }
+    let path_of = |l: &Value| -> Vec<u64> { l["path"].as_array().map(|a| a.iter().map(|x| x.as_u64().unwrap()).collect()).unwrap_or_default() };
+    let overlap = |a: &Value, b: &Value| { let (p, q) = (path_of(a), path_of(b)); p.starts_with(&q) || q.starts_with(&p) };
+    if locals.iter().any(|l| !path_of(l).is_empty()) { ctx.label("real-regs:nested-scopes"); }
+    // how many registers of each type the largest set of simultaneously live named locals needs (a chain of nested scopes)
+    let need = |ty: &str| -> usize { locals.iter().filter(|l| l["ty"] == ty).map(|l| locals.iter().filter(|m| m["ty"] == ty && path_of(l).starts_with(&path_of(m))).count()).max().unwrap_or(0) };
+    let avail_i = gi.iter().filter(|r| !mentioned.contains(r)).count();
+    let avail_f = gf.iter().filter(|r| !mentioned.contains(r)).count();
+    let must_reject = need("int") > avail_i || need("float") > avail_f || (case["anti"] == true && !locals.is_empty());
+    let r = tx::with_truth(|truth| files::compile_file(truth, fmt, g, text.as_bytes(), &[], vec![]).map(|c| c.debug_info).map_err(|s| (s, tx::diags(truth))));
+    let dbg = match r {
+        Ok(d) => d,
+        Err((s, d)) => {
+            if !tx::has_error_diag(&d) { return Outcome::Fail(Failure::new("c05:real-regs:err-without-diagnostic", format!("{:?}\n{}", s, text))); }
+            if must_reject { ctx.label(if case["anti"] == true && !locals.is_empty() { "real-regs:anti-scratch" } else { "real-regs:exhausted" }); ctx.nontrivial(); }
+            else { ctx.label("real-regs:rejected-for-another-reason"); }
+            return Outcome::Pass;
+        }
+    };
+    if must_reject {
+        return Outcome::Fail(Failure::new(format!("c05:real-regs:{}", if case["anti"] == true && !locals.is_empty() { "anti-scratch-ignored" } else { "more-live-locals-than-registers-accepted" }),
+            format!("game {} {}: {} int / {} float locals are live at once, {} / {} general-purpose registers are left after the ones the source mentions{}, but compile succeeded\n{}", game, fmt_s, need("int"), need("float"), avail_i, avail_f, if case["anti"] == true { "; the script also contains the instruction that forbids scratch registers" } else { "" }, text)));
+    }
+    let mut bound: BTreeMap<String, i32> = BTreeMap::new();
+    for script in dbg["exported-scripts"].as_array().cloned().unwrap_or_default() {
+        for l in script["locals"].as_array().cloned().unwrap_or_default() {
+            if let (Some(n), Some(r)) = (l["name"].as_str(), l["bound-to"]["reg"].as_i64()) { bound.insert(n.to_string(), r as i32); }
+        }
+    }
+    if bound.len() >= 2 { ctx.label("real-regs:bound>=2"); ctx.nontrivial(); }
+    for l in &locals {
+        let name = l["name"].as_str().unwrap();
+        let Some(&reg) = bound.get(name) else { continue };   // (a local that is never read may be optimised away)
+        let pool = if l["ty"] == "int" { &gi } else { &gf };
+        if !pool.contains(&reg) { return Outcome::Fail(Failure::new("c05:real-regs:not-general-purpose", format!("game {} {}: {} local {} is bound to REG[{}], which is not a general-purpose {} register of this language\n{}", game, fmt_s, l["ty"], name, reg, l["ty"], text))); }
+        if mentioned.contains(&reg) { return Outcome::Fail(Failure::new("c05:real-regs:bound-reg-mentioned", format!("game {} {}: local {} is bound to REG[{}], which the source mentions\n{}", game, fmt_s, name, reg, text))); }
+        for m in &locals {
+            let mn = m["name"].as_str().unwrap();
+            if mn != name && overlap(l, m) { if let Some(&r2) = bound.get(mn) { if r2 == reg { return Outcome::Fail(Failure::new("c05:real-regs:live-locals-share-a-register", format!("game {} {}: locals {} and {} are both bound to REG[{}] although their scopes overlap\n{}", game, fmt_s, name, mn, reg, text))); } } }
         }
     }
     Outcome::Pass
